@@ -146,12 +146,23 @@ func execLog(t *testing.T, plan *simkit.Plan) *simkit.Result {
 						w := logger.Writer(lvl)
 						data := []byte(op.Str(0))
 						frag := int(plan.C("frag"))
+						// Like io.Copy, the relay reuses one buffer for every
+						// write: a writer must not retain the slice it is given
+						// (io.Writer), so whatever is in the buffer after Write
+						// returned is the caller's business - here, garbage that
+						// would forge lines if anything still referred to it.
+						scratch := make([]byte, len(data)+1)
 						for len(data) > 0 {
 							n := len(data)
 							if frag > 0 {
 								n = min(n, 1+s.Choose(frag))
 							}
-							if _, err := w.Write(data[:n]); err != nil {
+							copy(scratch, data[:n])
+							_, err := w.Write(scratch[:n])
+							for i := range scratch {
+								scratch[i] = "\n\x1b!\r"[i%4]
+							}
+							if err != nil {
 								break
 							}
 							data = data[n:]
@@ -349,7 +360,13 @@ func execWriters(plan *simkit.Plan) *simkit.Result {
 				for i := range data {
 					data[i] = alphabet[r.Intn(len(alphabet))]
 				}
-				n, err := lp.Write(data)
+				// The caller reuses its buffer (io.Copy does): written from a
+				// scratch copy that is scribbled over as soon as Write returns.
+				scratch := append([]byte(nil), data...)
+				n, err := lp.Write(scratch)
+				for i := range scratch {
+					scratch[i] = "\n#\r"[i%3]
+				}
 				if residue+len(data) > limit {
 					if err != streampkg.ErrMaximumBufferSizeExceeded || n != 0 {
 						s.Violate("C47", "line-limit", "lines", "write of %d bytes onto a residue of %d with limit %d returned (%d, %v)", len(data), residue, limit, n, err)
